@@ -6,18 +6,32 @@ From FV Require Import Generated.Consts C05.Model C05.Spec C05.WheelInv C05.List
 Import ListNotations.
 Open Scope Z_scope.
 
-(* reachable states: any history from a fresh wheel (any position) or a fresh heap *)
-Inductive reachable : st -> Prop :=
-| reach_wheel cur tt ops : 0 <= cur -> reachable (fst (run (init_wheel cur tt) ops))
-| reach_heap now ops : reachable (fst (run (init_heap now) ops)).
+(* reachable states, by their invariant: the machine invariant of C05/Machine.v holds and
+   the state is related to a state of the specification.  Every state reached from a
+   fresh wheel (at any position) or a fresh heap by a history that does not exhaust the
+   63-bit id counter is such a state (reachable_from_wheel / reachable_from_heap), and
+   the set is closed under further histories that fit the counter (reachable_run). *)
+Definition reachable (m : st) : Prop := minv m /\ exists z, rel m z.
 
 Lemma reachable_minv m : reachable m -> minv m /\ exists z, rel m z.
+Proof. intros H. exact H. Qed.
+
+Lemma reachable_run m ops : reachable m -> fits m ops -> reachable (fst (run m ops)).
 Proof.
-  intros [cur tt ops Hc|now ops].
-  - destruct (run_refines ops _ _ (minv_init_wheel cur tt Hc) (rel_init_wheel cur tt)) as [Hm [Hr _]].
-    split; [exact Hm|eexists; exact Hr].
-  - destruct (run_refines ops _ _ (minv_init_heap now) (rel_init_heap now)) as [Hm [Hr _]].
-    split; [exact Hm|eexists; exact Hr].
+  intros [Hm [z Hr]] Hf. destruct (run_refines ops m z Hm Hr Hf) as [Hm1 [Hr1 _]].
+  split; [exact Hm1|eexists; exact Hr1].
+Qed.
+
+Lemma reachable_from_wheel cur tt ops : 0 <= cur -> short ops -> reachable (fst (run (init_wheel cur tt) ops)).
+Proof.
+  intros Hc Hs. apply reachable_run; [split; [apply minv_init_wheel; exact Hc|eexists; apply rel_init_wheel]|].
+  unfold short, fits in *. cbn. lia.
+Qed.
+
+Lemma reachable_from_heap now ops : short ops -> reachable (fst (run (init_heap now) ops)).
+Proof.
+  intros Hs. apply reachable_run; [split; [apply minv_init_heap|eexists; apply rel_init_heap]|].
+  unfold short, fits in *. cbn. lia.
 Qed.
 
 Lemma run_app m ops1 ops2 :
@@ -28,17 +42,6 @@ Proof.
   - cbn. destruct (run m ops2); reflexivity.
   - destruct (step m o) as [m1 x]. rewrite IH. destruct (run m1 ops1) as [m2 xs]. cbn [fst snd].
     destruct (run m2 ops2); reflexivity.
-Qed.
-
-Lemma reachable_run m ops : reachable m -> reachable (fst (run m ops)).
-Proof.
-  intros [cur tt ops0 Hc|now ops0].
-  - replace (fst (run (fst (run (init_wheel cur tt) ops0)) ops)) with (fst (run (init_wheel cur tt) (ops0 ++ ops)))
-      by (rewrite run_app; reflexivity).
-    constructor. exact Hc.
-  - replace (fst (run (fst (run (init_heap now) ops0)) ops)) with (fst (run (init_heap now) (ops0 ++ ops)))
-      by (rewrite run_app; reflexivity).
-    constructor.
 Qed.
 
 (* ------------------------------------------------------------------------------------ *)
@@ -81,7 +84,7 @@ Lemma tick_deliv_sched m l :
   reachable m -> snd (step m Tick) = ODeliv l -> forall x, In x l -> In (fst x) (srefer m).
 Proof.
   intros Hre E x Hx. destruct (reachable_minv m Hre) as [Hm [z Hr]].
-  destruct (step_sim m z Tick Hm Hr) as [_ [_ Ho]]. rewrite E in Ho.
+  destruct (tick_sim m z Hm Hr) as [_ [_ Ho]]. rewrite E in Ho.
   destruct (snd (sstep z Tick)) as [| | | |l'| |] eqn:Ez; cbn in Ho; try discriminate.
   destruct Ho as [Hperm _]. destruct Hr as [_ [Rr [_ [_ [_ [Rp _]]]]]]. rewrite <- Rr.
   apply (spec_tick_deliv_sched z l'); [|exact Ez|eapply Permutation_in; eassumption].
@@ -105,9 +108,9 @@ Proof. intros H. cbn [step]. rewrite H. reflexivity. Qed.
 Definition gone (id : Z) (m : st) : Prop := ~ In id (srefer m) /\ id <= snext m.
 
 Lemma step_refer_sub m o x :
-  minv m -> In x (srefer (fst (step m o))) -> In x (srefer m) \/ x = snext m + 1.
+  minv m -> snext m + 1 < 2 ^ 63 -> In x (srefer (fst (step m o))) -> In x (srefer m) \/ x = snext m + 1.
 Proof.
-  intros Hm. pose proof (next_id_eq m Hm) as Hid. destruct o; cbn [step].
+  intros Hm Hroom. pose proof (next_id_eq m Hm Hroom) as Hid. destruct o; cbn [step].
   - unfold schedule. cbn [fst srefer]. rewrite Hid, in_app_iff. cbn. intros [H|[H|[]]]; [left; exact H|right; symmetry; exact H].
   - unfold schedule. cbn [fst srefer]. rewrite Hid, in_app_iff. cbn. intros [H|[H|[]]]; [left; exact H|right; symmetry; exact H].
   - destruct (mem id (srefer m)); cbn [fst srefer]; [|tauto]. unfold unrefer. rewrite filter_In. tauto.
@@ -143,47 +146,33 @@ Proof.
   - cbn. tauto.
 Qed.
 
-Lemma step_next_mono m o : minv m -> snext m <= snext (fst (step m o)).
+Lemma gone_step id m o : minv m -> snext m + 1 < 2 ^ 63 -> gone id m -> gone id (fst (step m o)).
 Proof.
-  intros Hm. pose proof (next_id_eq m Hm) as Hid. destruct o; cbn [step].
-  - unfold schedule. cbn [fst snext]. lia.
-  - unfold schedule. cbn [fst snext]. lia.
-  - destruct (mem id (srefer m)); cbn [fst snext]; lia.
-  - cbn [fst]. lia.
-  - cbn [fst]. lia.
-  - destruct (spadd m); cbn [fst snext]; lia.
-  - destruct (spdel m); cbn [fst snext]; lia.
-  - cbn [fst snext]. lia.
-  - destruct (core_tick (score m) (srefer m) (sclock m)) as [[c r] o]. cbn [fst snext]. lia.
-  - cbn [fst]. lia.
+  intros Hm Hroom [Hn Hle]. split.
+  - intros Hin. apply (step_refer_sub m o id Hm Hroom) in Hin. destruct Hin; [contradiction|lia].
+  - pose proof (step_next_le m o Hm Hroom). lia.
 Qed.
 
-Lemma gone_step id m o : minv m -> gone id m -> gone id (fst (step m o)).
+Lemma minv_step m o : reachable m -> snext m + 1 < 2 ^ 63 -> reachable (fst (step m o)).
 Proof.
-  intros Hm [Hn Hle]. split.
-  - intros Hin. apply (step_refer_sub m o id Hm) in Hin. destruct Hin; [contradiction|lia].
-  - pose proof (step_next_mono m o Hm). lia.
-Qed.
-
-Lemma minv_step m o : reachable m -> reachable (fst (step m o)).
-Proof.
-  intros H. replace (fst (step m o)) with (fst (run m [o])); [apply reachable_run; exact H|].
-  cbn [run]. destruct (step m o). reflexivity.
+  intros [Hm [z Hr]] Hroom. destruct (step_sim m z o Hm Hr Hroom) as [Hm1 [Hr1 _]].
+  split; [exact Hm1|eexists; exact Hr1].
 Qed.
 
 (* after the id is gone: never delivered, never reported, never counted, in any continuation *)
 Lemma gone_forever id ops : forall m,
-  reachable m -> gone id m ->
+  reachable m -> fits m ops -> gone id m ->
   gone id (fst (run m ops)) /\
   (forall l, In (ODeliv l) (snd (run m ops)) -> ~ In id (map fst l)).
 Proof.
-  induction ops as [|o ops IH]; intros m Hre Hg; cbn [run].
+  induction ops as [|o ops IH]; intros m Hre Hf Hg; cbn [run].
   - cbn. split; [exact Hg|tauto].
   - destruct (reachable_minv m Hre) as [Hm _].
-    pose proof (gone_step id m o Hm Hg) as Hg1. pose proof (minv_step m o Hre) as Hre1.
-    pose proof (tick_deliv_sched m) as Hd.
+    unfold fits in Hf. cbn [length] in Hf. assert (Hroom : snext m + 1 < 2 ^ 63) by lia.
+    pose proof (gone_step id m o Hm Hroom Hg) as Hg1. pose proof (minv_step m o Hre Hroom) as Hre1.
+    pose proof (tick_deliv_sched m) as Hd. pose proof (step_next_le m o Hm Hroom) as Hnx.
     destruct (step m o) as [m1 x] eqn:E. cbn [fst] in *.
-    destruct (IH m1 Hre1 Hg1) as [Hg2 Hout]. destruct (run m1 ops) as [m2 xs]. cbn [fst snd] in *.
+    destruct (IH m1 Hre1) as [Hg2 Hout]; [unfold fits; lia|exact Hg1|]. destruct (run m1 ops) as [m2 xs]. cbn [fst snd] in *.
     split; [exact Hg2|]. intros l [Hl|Hl]; [|apply Hout; exact Hl].
     subst x. intros Hin. apply in_map_iff in Hin. destruct Hin as [y [Ey Hy]].
     destruct o; cbn [step] in E; try (inversion E; fail);
@@ -199,13 +188,13 @@ Qed.
 (* ids, crash conditions, enabledness *)
 
 Lemma start_fresh m d :
-  reachable m ->
+  reachable m -> snext m + 1 < 2 ^ 63 ->
   exists b id, snd (step m (Start d)) = OId b id /\ id = snext m + 1 /\
                ~ In id (srefer m) /\ ~ In id (all_ids m) /\ ~ In id (spdel m) /\
                NoDup (srefer (fst (step m (Start d)))).
 Proof.
-  intros Hre. destruct (reachable_minv m Hre) as [Hm _]. pose proof (next_id_eq m Hm) as Hid.
-  pose proof (minv_step m (Start d) Hre) as Hre1. destruct (reachable_minv _ Hre1) as [Hm1 _].
+  intros Hre Hroom. destruct (reachable_minv m Hre) as [Hm _]. pose proof (next_id_eq m Hm Hroom) as Hid.
+  pose proof (minv_step m (Start d) Hre Hroom) as Hre1. destruct (reachable_minv _ Hre1) as [Hm1 _].
   cbn [step] in *. unfold schedule in *. cbn [fst snd] in *. rewrite Hid in *.
   eexists _, _. split; [reflexivity|]. split; [reflexivity|].
   destruct Hm as [Mn Mr Mrn Mi Ml Mp Mc Mq].
@@ -217,13 +206,13 @@ Proof.
 Qed.
 
 Lemma every_fresh m p :
-  reachable m ->
+  reachable m -> snext m + 1 < 2 ^ 63 ->
   exists b id, snd (step m (Every p)) = OId b id /\ id = snext m + 1 /\
                ~ In id (srefer m) /\ ~ In id (all_ids m) /\ ~ In id (spdel m) /\
                NoDup (srefer (fst (step m (Every p)))).
 Proof.
-  intros Hre. destruct (reachable_minv m Hre) as [Hm _]. pose proof (next_id_eq m Hm) as Hid.
-  pose proof (minv_step m (Every p) Hre) as Hre1. destruct (reachable_minv _ Hre1) as [Hm1 _].
+  intros Hre Hroom. destruct (reachable_minv m Hre) as [Hm _]. pose proof (next_id_eq m Hm Hroom) as Hid.
+  pose proof (minv_step m (Every p) Hre Hroom) as Hre1. destruct (reachable_minv _ Hre1) as [Hm1 _].
   cbn [step] in *. unfold schedule in *. cbn [fst snd] in *. rewrite Hid in *.
   eexists _, _. split; [reflexivity|]. split; [reflexivity|].
   destruct Hm as [Mn Mr Mrn Mi Ml Mp Mc Mq].
@@ -291,17 +280,24 @@ Proof.
     specialize (Mr _ Hin). lia.
 Qed.
 
+Lemma reachable_cancel m id : reachable m -> reachable (fst (step m (Cancel id))).
+Proof.
+  intros [Hm [z Hr]]. destruct (cancel_sim m z id Hm Hr) as [Hm1 [Hr1 _]]. split; [exact Hm1|eexists; exact Hr1].
+Qed.
+
 Lemma cancel_final m id ops :
-  reachable m -> mem id (srefer m) = true ->
+  reachable m -> fits m ops -> mem id (srefer m) = true ->
   let m1 := fst (step m (Cancel id)) in
   (forall l, In (ODeliv l) (snd (run m1 ops)) -> ~ In id (map fst l)) /\
   ~ In id (srefer (fst (run m1 ops))) /\
   snd (step (fst (run m1 ops)) (IsSched id)) = OFlag false /\
   snd (step (fst (run m1 ops)) (Cancel id)) = OBool false false.
 Proof.
-  intros Hre Hin m1. pose proof (cancel_true_gone m id Hre Hin) as Hg.
-  pose proof (minv_step m (Cancel id) Hre) as Hre1. fold m1 in Hg, Hre1.
-  destruct (gone_forever id ops m1 Hre1 Hg) as [[Hn _] Hout].
+  intros Hre Hf Hin m1. pose proof (cancel_true_gone m id Hre Hin) as Hg.
+  pose proof (reachable_cancel m id Hre) as Hre1. fold m1 in Hg, Hre1.
+  assert (Hf1 : fits m1 ops).
+  { unfold fits, m1 in *. cbn [step]. rewrite Hin. cbn [fst snext]. exact Hf. }
+  destruct (gone_forever id ops m1 Hre1 Hf1 Hg) as [[Hn _] Hout].
   assert (Hmem : mem id (srefer (fst (run m1 ops))) = false).
   { apply not_true_is_false. intros H. apply Hn. apply mem_In. exact H. }
   split; [exact Hout|]. split; [exact Hn|]. split.
@@ -324,3 +320,59 @@ Lemma requests_consumed m :
   length (spadd (fst (step m HandleAdd))) = pred (length (spadd m)) /\
   length (spdel (fst (step m HandleDel))) = pred (length (spdel m)).
 Proof. split; [apply handle_add_progress|apply handle_del_progress]. Qed.
+
+(* ------------------------------------------------------------------------------------ *)
+(* id allocation including the wrap of the 63-bit counter: whatever the counter and the
+   map hold, the id handed out is positive and not in use — unless all 10^4 candidates
+   nextID() probes are in use (it then gives up and returns a used id) *)
+
+Definition norm_id (c : Z) : Z := if c <=? 0 then 1 else c.
+
+Fixpoint exhausted (fuel : nat) (c : Z) (refer : list Z) : Prop :=
+  match fuel with
+  | O => True
+  | S f => mem (norm_id c) refer = true /\ exhausted f (wrap64 (norm_id c + 1)) refer
+  end.
+
+Lemma next_id_loop_spec fuel : forall c refer,
+  (0 < next_id_loop fuel c refer /\ mem (next_id_loop fuel c refer) refer = false) \/ exhausted fuel c refer.
+Proof.
+  induction fuel as [|f IH]; intros c refer; [right; exact I|].
+  cbn [next_id_loop exhausted]. fold (norm_id c).
+  destruct (mem (norm_id c) refer) eqn:E.
+  - destruct (IH (wrap64 (norm_id c + 1)) refer) as [H|H]; [left; exact H|right; split; [reflexivity|exact H]].
+  - left. split; [unfold norm_id; destruct (Z.leb_spec c 0); lia|exact E].
+Qed.
+
+Lemma alloc_unique next refer :
+  ~ exhausted (Z.to_nat 10000) (wrap64 (next + 1)) refer ->
+  0 < alloc_id next refer /\ ~ In (alloc_id next refer) refer.
+Proof.
+  intros Hne. unfold alloc_id. destruct (next_id_loop_spec (Z.to_nat 10000) (wrap64 (next + 1)) refer) as [[H1 H2]|H]; [|contradiction].
+  split; [exact H1|]. intros Hin. apply mem_In in Hin. congruence.
+Qed.
+
+(* the step itself: a start at ANY counter value, in any state *)
+Lemma start_unique_wrap m d :
+  ~ exhausted (Z.to_nat 10000) (wrap64 (snext m + 1)) (srefer m) ->
+  exists b id, snd (step m (Start d)) = OId b id /\ 0 < id /\ ~ In id (srefer m).
+Proof.
+  intros H. destruct (alloc_unique (snext m) (srefer m) H) as [H1 H2].
+  cbn [step]. unfold schedule. cbn [snd]. eexists _, _. split; [reflexivity|]. split; [exact H1|exact H2].
+Qed.
+
+(* the counter at the top of its range with ids 1 and 3 pending: the next three starts get
+   MaxInt64, then 2 (the wrap skips 1), then 4 (3 is skipped) *)
+Example alloc_wrap_example :
+  alloc_id (2 ^ 63 - 2) [1; 3] = 2 ^ 63 - 1 /\
+  alloc_id (2 ^ 63 - 1) [1; 3; 2 ^ 63 - 1] = 2 /\
+  alloc_id 2 [1; 3; 2 ^ 63 - 1; 2] = 4.
+Proof. vm_compute. repeat split; reflexivity. Qed.
+
+Lemma reachable_fresh ops :
+  short ops ->
+  (forall cur tt, 0 <= cur -> reachable (fst (run (init_wheel cur tt) ops))) /\
+  (forall now, reachable (fst (run (init_heap now) ops))).
+Proof.
+  intros Hs. split; [intros cur tt Hc; apply reachable_from_wheel; assumption|intros now; apply reachable_from_heap; exact Hs].
+Qed.
